@@ -1,20 +1,36 @@
-"""Per-property plans: which bounded instances of the specification GEN explores, which harness
-profiles/backends execute the cases, and what the random driver adds, per tier."""
+"""Per-property plans: which bounded instances of the specification GEN explores (spec/mc), which
+harness profiles / backends execute the generated cases, and what the seeded random driver adds,
+per tier.  `check` interprets these; `gen_manifest.py` derives MANIFEST.json from them."""
+
 
 def G(module, cfg, **kw):
     d = dict(module=module, cfg=cfg)
     d.update(kw)
     return d
 
+
+def D(machine, budget, **kw):
+    d = dict(machine=machine, budget=budget)
+    d.update(kw)
+    return d
+
+
+ADV = ["adv"]
+
 CHECKS = {
+    "C01": {
+        "quick": {"gen": [G("MC_C01", "MC_C01_quick.cfg")], "drive": [D("strict", 3000)]},
+        "thorough": {"gen": [G("MC_C01", "MC_C01_thorough.cfg"), G("MC_C01", "MC_C01_thorough_b.cfg")], "drive": [D("strict", 50000)]},
+        "require_ops": ["strict.compose"],
+    },
     "C02": {
         "quick": {"gen": [G("MC_C02", "MC_C02_quick.cfg")]},
-        "thorough": {"gen": [G("MC_C02", "MC_C02_thorough.cfg")]},
-        "require_ops": ["strict.tensor", "lax.tensor", "law.tensor_assoc", "lax.tensor3"],
+        "thorough": {"gen": [G("MC_C02", "MC_C02_thorough.cfg"), G("MC_C02", "MC_C02_quick.cfg")]},
+        "require_ops": ["strict.tensor", "lax.tensor", "law.tensor_assoc", "lax.tensor3", "hyper.coproduct"],
     },
     "C03": {
         "quick": {"gen": [G("MC_C03", "MC_C03_quick.cfg")]},
-        "thorough": {"gen": [G("MC_C03", "MC_C03_thorough.cfg")]},
+        "thorough": {"gen": [G("MC_C03", "MC_C03_thorough.cfg")], "drive": [D("strict", 30000)]},
         "require_ops": ["law.assoc", "law.unit", "law.interchange", "law.twist_natural", "law.twist_inverse", "law.hexagon"],
     },
     "C04": {
@@ -22,130 +38,135 @@ CHECKS = {
         "thorough": {"gen": [G("MC_C04", "MC_C04_thorough.cfg")]},
         "require_ops": ["law.dagger_compose", "law.dagger_tensor", "law.spider_fusion", "strict.spider", "lax.spider", "strict.dagger", "lax.dagger"],
     },
-    "C07": {
-        "quick": {"drive": [{'machine': 'arrays', 'budget': 3000}], "gen": [G("MC_C07", "MC_C07_quick.cfg")]},
-        "thorough": {"drive": [{'machine': 'arrays', 'budget': 50000}], "gen": [G("MC_C07", "MC_C07_thorough.cfg")]},
-        "require_ops": ["arr.gather", "arr.scatter", "arr.argsort", "arr.connected_components", "arr.sparse_bincount", "arr.segmented_sum", "arr.get_range", "arr.sort_by"],
+    "C05": {
+        "quick": {"gen": [
+            G("MC_C05", "MC_C05_quick.cfg"), G("MC_C06", "MC_C06_quick.cfg"), G("MC_C08", "MC_C08_quick.cfg"),
+            G("MC_C01", "MC_C01_small.cfg"), G("MC_C02", "MC_C02_small.cfg"), G("MC_C04", "MC_C04_small.cfg"),
+            G("MC_C10", "MC_C10_small.cfg"), G("MC_C12", "MC_C12_small.cfg"), G("MC_C14", "MC_C14_small.cfg"),
+        ], "drive": [D("strict", 3000)]},
+        "thorough": {"gen": [
+            G("MC_C05", "MC_C05_quick.cfg"), G("MC_C06", "MC_C06_quick.cfg"), G("MC_C08", "MC_C08_quick.cfg"),
+            G("MC_C01", "MC_C01_quick.cfg"), G("MC_C02", "MC_C02_quick.cfg"), G("MC_C04", "MC_C04_quick.cfg"),
+            G("MC_C10", "MC_C10_quick.cfg"), G("MC_C12", "MC_C12_quick.cfg"), G("MC_C14", "MC_C14_quick.cfg"),
+        ], "drive": [D("strict", 50000)]},
+        "require_ops": ["hyper.new", "strict.new", "ff.new", "ic.new_ff", "ops.new", "strict.identity", "strict.twist", "strict.singleton",
+                        "strict.tensor_operations", "strict.compose", "strict.tensor", "functor.map_arrow", "optic.map_arrow", "lax.to_strict", "lax.from_strict"],
     },
     "C06": {
         "quick": {"gen": [G("MC_C06", "MC_C06_quick.cfg")]},
-        "thorough": {"gen": [G("MC_C06", "MC_C06_thorough.cfg")]},
+        "thorough": {"gen": [G("MC_C06", "MC_C06_thorough.cfg")], "drive": [D("arrays", 30000)]},
         "require_ops": ["ff.compose", "ff.coequalizer", "ff.coequalizer_universal", "ff.universal_labels", "ff.injections", "ff.transpose", "ff.new"],
+    },
+    "C07": {
+        "quick": {"gen": [G("MC_C07", "MC_C07_quick.cfg")], "drive": [D("arrays", 3000)]},
+        "thorough": {"gen": [G("MC_C07", "MC_C07_thorough.cfg")], "drive": [D("arrays", 50000)]},
+        "require_ops": ["arr.gather", "arr.scatter", "arr.argsort", "arr.connected_components", "arr.sparse_bincount", "arr.segmented_sum", "arr.get_range", "arr.sort_by"],
     },
     "C08": {
         "quick": {"gen": [G("MC_C08", "MC_C08_quick.cfg")]},
-        "thorough": {"gen": [G("MC_C08", "MC_C08_thorough.cfg")]},
+        "thorough": {"gen": [G("MC_C08", "MC_C08_thorough.cfg")], "drive": [D("arrays", 30000)]},
         "require_ops": ["ic.new_ff", "ic.flatmap", "ic.map_indexes_ff", "ic.iter_ff", "ic.iter_sf", "ops.iter", "ic.flatmap_sources_ff", "ic.map_values"],
     },
     "C09": {
-        "quick": {"drive": [{'machine': 'lax', 'budget': 3000}], "gen": [G("MC_Lax", "MC_C09_quick.cfg"), G("MC_Lax", "MC_C09_chains.cfg")]},
-        "thorough": {"drive": [{'machine': 'lax', 'budget': 50000}], "gen": [G("MC_Lax", "MC_C09_thorough.cfg")]},
-        "require_ops": ["lax.quotient", "lax.h.quotient", "lax.unify"],
-    },
-    "C11": {
-        "quick": {"drive": [{'machine': 'lax', 'budget': 3000}], "gen": [G("MC_Lax", "MC_C11_quick.cfg")]},
-        "thorough": {"drive": [{'machine': 'lax', 'budget': 50000}], "gen": [G("MC_Lax", "MC_C11_quick.cfg")]},
-        "require_ops": ["lax.new_node", "lax.new_edge", "lax.new_operation", "lax.add_edge_source", "lax.add_edge_target", "lax.unify", "lax.delete_nodes", "lax.delete_edges", "lax.map_nodes", "lax.serde_roundtrip", "lax.h.delete_nodes_witness"],
+        "quick": {"gen": [G("MC_Lax", "MC_C09_quick.cfg"), G("MC_Lax", "MC_C09_chains.cfg")], "drive": [D("lax", 3000)]},
+        "thorough": {"gen": [G("MC_Lax", "MC_C09_thorough.cfg")], "drive": [D("lax", 50000)]},
+        "require_ops": ["lax.quotient", "lax.h.quotient", "lax.h.coequalizer"],
     },
     "C10": {
         "quick": {"gen": [G("MC_C10", "MC_C10_quick.cfg")]},
         "thorough": {"gen": [G("MC_C10", "MC_C10_thorough.cfg")]},
         "require_ops": ["lax.to_strict", "lax.from_strict", "lax.roundtrip_strict", "lax.roundtrip_lax", "lax.compose", "lax.lax_compose", "lax.tensor_assign", "lax.append", "lax.singleton"],
     },
-    "C15": {
-        "quick": {"drive": [{"machine": "strict", "budget": 3000}], "gen": [G("MC_C15", "MC_C15_quick.cfg"), G("MC_C15", "MC_C15_quick_b.cfg")]},
-        "thorough": {"drive": [{'machine': 'strict', 'budget': 50000}], "gen": [G("MC_C15", "MC_C15_thorough.cfg")]},
-        "require_ops": ["strict.layer", "strict.layered_operations", "hook.kahn", "hook.converse", "hook.operation_adjacency", "hook.indegree"],
+    "C11": {
+        "quick": {"gen": [G("MC_Lax", "MC_C11_quick.cfg")], "drive": [D("lax", 3000)]},
+        "thorough": {"gen": [G("MC_Lax", "MC_C11_thorough.cfg")], "drive": [D("lax", 50000)]},
+        "require_ops": ["lax.new_node", "lax.new_edge", "lax.new_operation", "lax.add_edge_source", "lax.add_edge_target", "lax.unify", "lax.delete_nodes",
+                        "lax.delete_edges", "lax.map_nodes", "lax.serde_roundtrip", "lax.h.delete_nodes_witness"],
     },
-    "C17": {
-        "quick": {"drive": [{'machine': 'strict', 'budget': 3000}], "gen": [G("MC_C15", "MC_C17_quick.cfg")], "profiles": ["debug", "release"]},
-        "thorough": {"drive": [{'machine': 'strict', 'budget': 50000}], "gen": [G("MC_C15", "MC_C17_thorough.cfg")], "profiles": ["debug", "release"]},
-        "require_ops": ["strict.is_acyclic", "strict.is_monogamous", "hyper.in_degree", "hyper.out_degree"],
+    "C12": {
+        "quick": {"gen": [G("MC_C12", "MC_C12_quick.cfg")]},
+        "thorough": {"gen": [G("MC_C12", "MC_C12_thorough.cfg"), G("MC_C12", "MC_C12_thorough_b.cfg")], "drive": [D("strict", 20000)]},
+        "require_ops": ["functor.map_arrow", "laxf.dyn_map_arrow", "functor.laws"],
+    },
+    "C13": {
+        "quick": {"gen": [G("MC_C12", "MC_C13_quick.cfg")]},
+        "thorough": {"gen": [G("MC_C12", "MC_C13_thorough.cfg"), G("MC_C12", "MC_C13_quick.cfg")]},
+        "require_ops": ["laxf.try_define_map_arrow", "laxf.map_arrow_witness"],
+    },
+    "C14": {
+        "quick": {"gen": [G("MC_C14", "MC_C14_quick.cfg")]},
+        "thorough": {"gen": [G("MC_C14", "MC_C14_thorough.cfg")]},
+        "require_ops": ["optic.map_arrow", "optic.map_adapted", "optic.eval_adapted", "optic.laws", "laxf.optic_map_arrow", "laxf.optic_map_adapted"],
+    },
+    "C15": {
+        "quick": {"gen": [G("MC_C15", "MC_C15_quick.cfg"), G("MC_C15", "MC_C15_quick_b.cfg")], "drive": [D("strict", 3000)]},
+        "thorough": {"gen": [G("MC_C15", "MC_C15_thorough.cfg")], "drive": [D("strict", 50000)]},
+        "require_ops": ["strict.layer", "strict.layered_operations", "hook.kahn", "hook.converse", "hook.operation_adjacency", "hook.indegree"],
     },
     "C16": {
         "quick": {"gen": [G("MC_C16", "MC_C16_quick.cfg")]},
         "thorough": {"gen": [G("MC_C16", "MC_C16_thorough.cfg")]},
         "require_ops": ["strict.eval"],
     },
+    "C17": {
+        "quick": {"gen": [G("MC_C15", "MC_C17_quick.cfg")], "drive": [D("strict", 3000)], "profiles": ["debug", "release"]},
+        "thorough": {"gen": [G("MC_C15", "MC_C17_thorough.cfg")], "drive": [D("strict", 50000)], "profiles": ["debug", "release"]},
+        "require_ops": ["strict.is_acyclic", "strict.is_monogamous", "hyper.in_degree", "hyper.out_degree", "hyper.is_acyclic"],
+    },
     "C18": {
         "quick": {"gen": [G("MC_C18", "MC_C18_quick.cfg")]},
         "thorough": {"gen": [G("MC_C18", "MC_C18_thorough.cfg")]},
         "require_ops": ["arrow.new", "arrow.is_monomorphism", "arrow.is_convex_subgraph"],
     },
-    "C12": {
-        "quick": {"gen": [G("MC_C12", "MC_C12_quick.cfg")]},
-        "thorough": {"gen": [G("MC_C12", "MC_C12_quick.cfg")]},
-        "require_ops": ["functor.map_arrow", "laxf.dyn_map_arrow", "functor.laws"],
-    },
-    "C13": {
-        "quick": {"gen": [G("MC_C12", "MC_C13_quick.cfg")]},
-        "thorough": {"gen": [G("MC_C12", "MC_C13_quick.cfg")]},
-        "require_ops": ["laxf.try_define_map_arrow", "laxf.map_arrow_witness"],
-    },
-    "C14": {
-        "quick": {"gen": [G("MC_C14", "MC_C14_quick.cfg")]},
-        "thorough": {"gen": [G("MC_C14", "MC_C14_quick.cfg")]},
-        "require_ops": ["optic.map_arrow", "optic.map_adapted", "optic.eval_adapted", "optic.laws", "laxf.optic_map_arrow", "laxf.optic_map_adapted"],
-    },
     "C19": {
         "quick": {"gen": [G("MC_C19", "MC_C19_quick.cfg")]},
-        "thorough": {"gen": [G("MC_C19", "MC_C19_quick.cfg")]},
+        "thorough": {"gen": [G("MC_C19", "MC_C19_thorough.cfg")]},
         "require_ops": ["var.script", "var.forget", "var.forget_monogamous", "var.forget_eval"],
     },
     "C20": {
-        "quick": {"drive": [{'machine': 'strict', 'budget': 2000, 'backend': 'adv'}, {'machine': 'arrays', 'budget': 2000, 'backend': 'adv'}], "advseeds": 4, "gen": [
+        "quick": {"advseeds": 4, "gen": [
             G("MC_C20", "MC_C20_quick.cfg", model_only=True),
-            G("MC_C07", "MC_C07_small.cfg", backends=["adv"]),
-            G("MC_C01", "MC_C01_small.cfg", backends=["adv"]),
-            G("MC_C04", "MC_C04_small.cfg", backends=["adv"]),
-            G("MC_C12", "MC_C12_small.cfg", backends=["adv"]),
-            G("MC_C14", "MC_C14_small.cfg", backends=["adv"]),
-            G("MC_C15", "MC_C15_small.cfg", backends=["adv"]),
-            G("MC_C16", "MC_C16_small.cfg", backends=["adv"]),
-            G("MC_C18", "MC_C18_small.cfg", backends=["adv"]),
-        ]},
-        "thorough": {"drive": [{'machine': 'strict', 'budget': 30000, 'backend': 'adv'}, {'machine': 'arrays', 'budget': 30000, 'backend': 'adv'}], "advseeds": 16, "gen": [
+            G("MC_C07", "MC_C07_small.cfg", backends=ADV), G("MC_C01", "MC_C01_small.cfg", backends=ADV),
+            G("MC_C04", "MC_C04_small.cfg", backends=ADV), G("MC_C12", "MC_C12_small.cfg", backends=ADV),
+            G("MC_C14", "MC_C14_small.cfg", backends=ADV), G("MC_C15", "MC_C15_small.cfg", backends=ADV),
+            G("MC_C16", "MC_C16_small.cfg", backends=ADV), G("MC_C18", "MC_C18_small.cfg", backends=ADV),
+        ], "drive": [D("strict", 2000, backend="adv"), D("arrays", 2000, backend="adv")]},
+        "thorough": {"advseeds": 16, "gen": [
             G("MC_C20", "MC_C20_thorough.cfg", model_only=True),
-            G("MC_C07", "MC_C07_quick.cfg", backends=["adv"]),
-            G("MC_C01", "MC_C01_quick.cfg", backends=["adv"]),
-            G("MC_C04", "MC_C04_quick.cfg", backends=["adv"]),
-            G("MC_C12", "MC_C12_quick.cfg", backends=["adv"]),
-            G("MC_C14", "MC_C14_quick.cfg", backends=["adv"]),
-            G("MC_C15", "MC_C15_small.cfg", backends=["adv"]),
-            G("MC_C16", "MC_C16_quick.cfg", backends=["adv"]),
-            G("MC_C18", "MC_C18_small.cfg", backends=["adv"]),
-        ]},
-        "require_ops": ["arr.argsort", "arr.connected_components", "arr.sparse_bincount", "arr.scatter", "strict.compose", "functor.map_arrow", "optic.eval_adapted", "strict.layer", "strict.eval", "arrow.is_convex_subgraph", "strict.is_monogamous"],
-    },
-    "C05": {
-        "quick": {"drive": [{'machine': 'strict', 'budget': 3000}], "gen": [
-            G("MC_C05", "MC_C05_quick.cfg"),
-            G("MC_C06", "MC_C06_quick.cfg"),
-            G("MC_C08", "MC_C08_quick.cfg"),
-            G("MC_C01", "MC_C01_small.cfg"),
-            G("MC_C02", "MC_C02_small.cfg"),
-            G("MC_C04", "MC_C04_small.cfg"),
-            G("MC_C10", "MC_C10_small.cfg"),
-            G("MC_C12", "MC_C12_small.cfg"),
-            G("MC_C14", "MC_C14_small.cfg"),
-        ]},
-        "thorough": {"drive": [{'machine': 'strict', 'budget': 50000}], "gen": [
-            G("MC_C05", "MC_C05_quick.cfg"),
-            G("MC_C06", "MC_C06_quick.cfg"),
-            G("MC_C08", "MC_C08_quick.cfg"),
-            G("MC_C01", "MC_C01_quick.cfg"),
-            G("MC_C02", "MC_C02_quick.cfg"),
-            G("MC_C04", "MC_C04_quick.cfg"),
-            G("MC_C10", "MC_C10_quick.cfg"),
-            G("MC_C12", "MC_C12_quick.cfg"),
-            G("MC_C14", "MC_C14_quick.cfg"),
-        ]},
-        "require_ops": ["hyper.new", "strict.new", "ff.new", "ic.new_ff", "ops.new", "strict.identity", "strict.twist", "strict.singleton", "strict.tensor_operations", "strict.compose", "strict.tensor", "functor.map_arrow", "optic.map_arrow", "lax.to_strict", "lax.from_strict"],
-    },
-    "C01": {
-        "quick": {"drive": [{'machine': 'strict', 'budget': 3000}], "gen": [G("MC_C01", "MC_C01_quick.cfg")]},
-        "thorough": {"drive": [{'machine': 'strict', 'budget': 50000}], "gen": [G("MC_C01", "MC_C01_quick.cfg")]},
-        "require_ops": ["strict.compose"],
+            G("MC_C07", "MC_C07_quick.cfg", backends=ADV), G("MC_C01", "MC_C01_quick.cfg", backends=ADV),
+            G("MC_C04", "MC_C04_quick.cfg", backends=ADV), G("MC_C12", "MC_C12_quick.cfg", backends=ADV),
+            G("MC_C14", "MC_C14_quick.cfg", backends=ADV), G("MC_C15", "MC_C15_quick.cfg", backends=ADV),
+            G("MC_C16", "MC_C16_quick.cfg", backends=ADV), G("MC_C18", "MC_C18_quick.cfg", backends=ADV),
+        ], "drive": [D("strict", 30000, backend="adv"), D("arrays", 30000, backend="adv")]},
+        "require_ops": ["arr.argsort", "arr.connected_components", "arr.sparse_bincount", "arr.scatter", "strict.compose", "functor.map_arrow",
+                        "optic.eval_adapted", "strict.layer", "strict.eval", "arrow.is_convex_subgraph", "strict.is_monogamous"],
     },
 }
-META = {}
+
+_T = ("TLA+ specification model-checked with TLC; TLC-generated cases replayed on the implementation and every recorded "
+      "observation trace-validated against the specification (spec/Trace.tla)")
+
+META = {
+    "C01": {"text": "TLC enumerates all pairs of diagrams in the bound (composable or not), checks the gluing theorem on the reference composition (identified iff forced, edges/labels/interfaces carried), every pair is composed by the library and the result must be deep-well-formed and isomorphic (interfaces pinned) to the reference gluing; None on type mismatch; plus recorded chains of compositions from the seeded driver."},
+    "C02": {"text": "Equality, field for field, of strict and lax tensor (pending unifications included) with the juxtaposition computed by the specification over all pairs in the bound; associativity and unit laws on the nose over all triples (both sides computed by the library); model invariants: the same laws on the reference operators."},
+    "C03": {"text": "All law instances in the bound (associativity, units, interchange, naturality and involutivity of the symmetry, both hexagons): both sides computed by the library, compared by the specification's isomorphism decision and with the reference expression; the laws are also model-checked on the reference operators."},
+    "C04": {"text": "Dagger equality/involution/contravariance/tensor laws over all pairs of diagrams, spider fusion over all pairs of labelled cospans in the bound (result discrete and isomorphic to the pushout spider, computed independently), exact accept/reject of spider construction on raw legs; strict and lax entry points."},
+    "C05": {"text": "Checked constructors on raw, possibly ill-formed data (accept iff the documented condition; a rejection names a failing condition) plus the deep well-formedness and typing conjunct of every diagram-returning operation (constructors, categorical operations, functor/optic application, conversions), also on outputs fed back as inputs by the driver."},
+    "C06": {"text": "Every finite-function operation on all tables in the bound against its set-theoretic definition; coequalizer judged by the relation (any numbering); universal map exists iff constant on fibres; the universal property itself is model-checked exhaustively."},
+    "C07": {"text": "Every array primitive of the Vec backend on all small arrays / index arrays / range forms / edge lists in the bound against scalar definitions, contracts where the interface leaves a choice; default-method formulas model-checked against direct definitions. (Executable-reference use of the specification; no temporal content.)"},
+    "C08": {"text": "Every segmented-array operation as a list-of-lists function plus the representation invariant; checked constructors accept iff sizes sum to the value length; iterator machine: all scripts of next/len/size_hint calls up to the bound replayed on both iterators and validated step by step."},
+    "C09": {"text": "The lax builder as a TLA+ state machine: every reachable state in the bound, quotient from each; the relation accepts any numbering of merged classes, demands label-uniform fibres, rewritten references, cleared pairs, idempotence, and an unchanged diagram on failure; action properties FailAtomic / QuotientClears model-checked; recorded histories interleaving unify/quotient/edits."},
+    "C10": {"text": "Round trips are equalities; strictification of lax compose/tensor/identity/symmetry/spider/dagger/singleton results is isomorphic to the strict operation on strictified arguments; definedness of checked and unchecked lax composition; in-place variants equal the pure ones; over all lax/strict diagrams and pairs in the bound."},
+    "C11": {"text": "One implementation test per edge of TLC's state graph of the lax builder (every reachable state x every call x every argument in the bound, including duplicate and out-of-range identifiers), all public fields and returned ids compared with the list model; append-only action property; serde JSON field names and round trip; recorded histories of up to 120 calls validated with the state tracked by the specification."},
+    "C12": {"text": "Functors are data: TLC enumerates object maps (lists of length 0, 1, 2) and operation images (all diagrams of the right type in the bound); the library's result must be isomorphic to generator-wise substitution, with type F(A) -> F(B); functor laws; strict trait and lax trait through DynFunctor; model invariant: the transcribed spider decomposition is isomorphic to substitution."},
+    "C13": {"text": "Native lax functor path: refusal iff pending unifications; quotiented result isomorphic to substitution; witness has one segment per input node of length |F(label)| carrying F(label) in order, and pushes the interfaces through the quotient map."},
+    "C14": {"text": "Table-driven optics (forward/reverse object maps, residuals, images enumerated by TLC): type of map_arrow and adapt, isomorphism with the generator-wise optic applied by substitution, functoriality; derivative clause: all monogamous acyclic polynomial circuits with <= K operations under the standard lenses: adapted optic monogamous, evaluates to (f(x), J^T dy) as computed by adjoint propagation in the specification; chain rule model-checked on the specification."},
+    "C15": {"text": "All diagrams of the listed shapes: any valid minimal layering is accepted (unvisited = on/downstream of a cycle, strict order along dependencies, depth = longest chain, grouped form); hooks judge converse/adjacency/in-degree/kahn directly; model invariant: the transcribed level-synchronous Kahn ends in a valid minimal layering."},
+    "C16": {"text": "All typed single-writer diagrams in the bound (hence all numberings) and all monogamous circuits with <= 3 operations: result equals the recursive reference interpreter, callback batches contain every hyperedge once with reference inputs, None iff the dependency relation is cyclic; model invariants: layered evaluation = reference, invariance under renumbering."},
+    "C17": {"text": "is_acyclic, is_monogamous, in/out degree on all diagrams of the listed shapes, in debug and release profiles; definitions by reachability and counting; a panic never conforms; model invariants: bincount formula <=> definition, node-level Kahn <=> no node reaches itself."},
+    "C18": {"text": "All pairs of small hypergraphs with all pairs of tables (natural or not, typed or mistyped): Ok iff morphism, Err names a failing condition; mono iff both injective; convexity of all sub-hypergraph inclusions by brute force over paths; model invariant: the transcribed two-layer search decides the brute-force definition."},
+    "C19": {"text": "All Var-builder scripts up to the bound (sharing, multi-result operations, leaked handles) compared with the list model of the builder; forget / forget_monogamous on all lax terms in the bound isomorphic to generator-wise substitution of the forgetting table, type preserved, a panic never conforms; evaluation of forget(build(script)) equals the reference with variables read as copies."},
+    "C20": {"text": "Model level: every resolution of the open choices (argsort ties, component numbering, scatter filler/duplicates) explored by TLC for converse and composition, results satisfy the relations. Implementation level: the strict algorithms instantiated at an adversarial conforming backend defined in the harness (several seeds), every primitive answer of that backend judged against the array contract and every algorithm result judged by the same relations as for the Vec backend."},
+}
+for _k in META:
+    META[_k].setdefault("technique", _T)
